@@ -5,6 +5,7 @@ import (
 	"fmt"
 	"net/http"
 	"net/url"
+	"reflect"
 	"strconv"
 	"strings"
 
@@ -153,6 +154,11 @@ func urlReplay(s *Summary, raw json.RawMessage) {
 					for _, e := range extras[:nextra] {
 						q.Add(e[0], e[1])
 					}
+					if nextra >= 1 { // a key with several values (?tag=go&tag=web): all of them, in order
+						q.Add("tag", "go")
+						q.Add("tag", "web")
+						q.Add("tag", "a b")
+					}
 					b.Queries(q)
 					u = r.BuildRequestURL("target", b)
 				}
@@ -215,6 +221,13 @@ func urlReplay(s *Summary, raw json.RawMessage) {
 					s.mismatch(desc("query", fmt.Sprintf("extra argument %s=%q of BuildURL(%q) arrives as %q (URL %q)", e[0], e[1], c.Pat, q.Get(e[0]), u.String())), c)
 					return
 				}
+			}
+			if style%3 == 2 && nextra >= 1 {
+				if !reflect.DeepEqual(q["tag"], []string{"go", "web", "a b"}) {
+					s.mismatch(desc("query", fmt.Sprintf("query key tag with the values [go web \"a b\"] given to the builder arrives as %q (URL %q)", q["tag"], u.String())), c)
+					return
+				}
+				delete(q, "tag")
 			}
 			if len(q) != nextra {
 				s.mismatch(desc("query", fmt.Sprintf("URL %q carries query %v, expected %d extra keys", u.String(), q, nextra)), c)
